@@ -2,6 +2,7 @@ package main
 
 import (
 	"go/token"
+	"strings"
 
 	"golang.org/x/tools/go/ssa"
 )
@@ -914,13 +915,153 @@ func (c *Ctx) sameStruct(b ssa.Value, want *ssa.Alloc) bool {
 		return false
 	}
 	rets := returnsOf(h)
+	some := false
 	for _, r := range rets {
 		if ex.Index >= len(r.Results) {
 			return false
 		}
-		if la, ok := loadAddr(strip(unspill(r.Results[ex.Index]))); !ok || la != ssa.Value(want) {
+		rv0 := strip(unspill(r.Results[ex.Index]))
+		if k, isC := rv0.(*ssa.Const); isC && (k.Value == nil || isZeroConst(k)) {
+			continue // T{} on an error path
+		}
+		la, ok := loadAddr(rv0)
+		if ok && la == ssa.Value(want) {
+			some = true
+			continue
+		}
+		// an error path that hands back the zero value of the struct (T{}) carries nothing
+		if al, isAl := la.(*ssa.Alloc); ok && isAl && onlyLoaded(al) {
+			continue
+		}
+		return false
+	}
+	return some
+}
+
+// onlyLoaded: the local is never written (it holds the zero value of its type).
+func onlyLoaded(al *ssa.Alloc) bool {
+	for _, r := range *al.Referrers() {
+		switch x := r.(type) {
+		case *ssa.UnOp:
+			if x.Op != token.MUL {
+				return false
+			}
+		case *ssa.DebugRef:
+		default:
 			return false
 		}
 	}
-	return len(rets) > 0
+	return true
+}
+
+// ---------------------------------------------------------------------------
+// dials that may live in a helper
+
+// isDialName: a library call that opens a network connection.
+func isDialName(n string) bool {
+	return strings.HasPrefix(n, "net.Dial") || strings.HasPrefix(n, "(*net.Dialer).Dial")
+}
+
+// dialAddrArg: the address operand of a library dial call.
+func dialAddrArg(call *ssa.Call) ssa.Value {
+	if !isDialName(calleeName(call)) || len(call.Call.Args) == 0 {
+		return nil
+	}
+	if strings.HasPrefix(calleeName(call), "(*net.Dialer)") {
+		return call.Call.Args[len(call.Call.Args)-1]
+	}
+	if len(call.Call.Args) > 1 {
+		return call.Call.Args[1]
+	}
+	return nil
+}
+
+// dialLike: call is a library dial, or a first-party helper (depth <= 2) that returns (conn, err)
+// where every non-nil conn it returns is result 0 of a dial-like call in it and is returned together
+// with that call's own error — so that, at the call site, err == nil implies the dial succeeded and
+// result 0 is the dialled connection.
+func (c *Ctx) dialLike(call *ssa.Call, depth int) bool {
+	if call == nil {
+		return false
+	}
+	if isDialName(calleeName(call)) {
+		return true
+	}
+	h := call.Call.StaticCallee()
+	if h == nil || !IsFirstParty(h) || h.Blocks == nil || depth >= 2 {
+		return false
+	}
+	if h.Signature.Results().Len() != 2 {
+		return false
+	}
+	some := false
+	for _, r := range returnsOf(h) {
+		if len(r.Results) != 2 {
+			return false
+		}
+		v0 := strip(unspill(r.Results[0]))
+		if isNil(v0) {
+			continue
+		}
+		ex0, ok := v0.(*ssa.Extract)
+		if !ok || ex0.Index != 0 {
+			return false
+		}
+		inner, ok := ex0.Tuple.(*ssa.Call)
+		if !ok || !c.dialLike(inner, depth+1) {
+			return false
+		}
+		ex1, ok := strip(unspill(r.Results[1])).(*ssa.Extract)
+		if !ok || ex1.Tuple != ssa.Value(inner) || ex1.Index != 1 {
+			return false
+		}
+		some = true
+	}
+	return some
+}
+
+// dialLikeAddr: the address the dial-like call connects to, in the frame of the call's function.
+func (c *Ctx) dialLikeAddr(call *ssa.Call, depth int) ssa.Value {
+	if isDialName(calleeName(call)) {
+		return dialAddrArg(call)
+	}
+	h := call.Call.StaticCallee()
+	if h == nil || depth >= 2 {
+		return nil
+	}
+	var addr ssa.Value
+	for _, ci := range callsIn(h) {
+		inner, ok := ci.(*ssa.Call)
+		if !ok || !c.dialLike(inner, depth+1) {
+			continue
+		}
+		a := c.dialLikeAddr(inner, depth+1)
+		if a == nil {
+			return nil
+		}
+		p, ok := strip(a).(*ssa.Parameter)
+		if !ok {
+			return nil
+		}
+		for j, q := range h.Params {
+			if q == p && j < len(call.Call.Args) {
+				if addr != nil && strip(addr) != strip(call.Call.Args[j]) {
+					return nil
+				}
+				addr = call.Call.Args[j]
+			}
+		}
+	}
+	return addr
+}
+
+// dialLikeIn: the dial-like calls made directly in fn.
+func (c *Ctx) dialLikeIn(fn *ssa.Function) []*ssa.Call {
+	var out []*ssa.Call
+	for _, ci := range callsIn(fn) {
+		if call, ok := ci.(*ssa.Call); ok && c.dialLike(call, 0) {
+			out = append(out, call)
+		}
+	}
+	return out
 }
